@@ -95,6 +95,11 @@ def frame_clauses(sv, v, tag):
     out = []
     ok_names = list(v.names) == sv.names
     out.append(('names unchanged', z3.BoolVal(ok_names)))
+    # representation invariant, storage part: values, defaults and bounds live in pairwise separate arrays (otherwise an in-place
+    # assignment of a value would change a default or a bound later on) - object identity is concrete under symbolic execution
+    arrs = [v._values, v._defaults, v._mins, v._maxs]
+    sep = all(not np.shares_memory(arrs[i], arrs[j]) for i in range(4) for j in range(i + 1, 4)) if sv.n else True
+    out.append(('values / defaults / bounds stored in separate arrays', z3.BoolVal(bool(sep))))
     for i in range(sv.n):
         for nm, cur, ref in (('mins', v.mins[i], sv.lo[i]), ('maxs', v.maxs[i], sv.hi[i]), ('defaults', v.defaults[i], sv.dflt[i])):
             if isinstance(ref, SymReal):
